@@ -19,7 +19,7 @@ TABLE = {
             "Failure atomicity and frozen-refusal are decided on every CFG path of add_resource / add_window / align_to with interprocedural may-raise / writes summaries; freeze-on-hand-over by post-dominance; interval discipline by a small type system over bisect / comparison sites; _align_up by modular reduction; every query method writes no field of the map or its memo is written by every mutator.",
             "numeric correctness of the bisect indices beyond the endpoint kinds (N1)", "6/C02"),
     "C03": ("construction-site ownership, affine address-unit typing with a dependency clause, guard tables (Boolean function of table membership per result), flattened view when _translate is split",
-            "Decides that all three traversals share one translation authority (_translate) fed with the window's own stored range, that scale and base are applied on the right side (unit typing), and that the dispatch over resources / windows is a partition in address order.",
+            "Decides that all three traversals share one translation authority (_translate) fed with the window's own stored range, that scale and base are applied on the right side (unit typing), and that the dispatch over resources / windows is a partition in address order; the queries refuse nothing (closed refusal set: an address outside every range decodes to None).",
             "numeric equality of the traversals over all trees (N1)", "6/C03"),
     "C04": ("template conformance of Multiplexer.elaborate (read half) on the E-DSL model; decision lists by truth table",
             "One-step facts F1-F4 of Appendix C decided for every layout (loop indices symbolic): read strobe only on the first chunk address, delayed select, capture on the register's strobe, bus data gated by the chunk's select.",
@@ -61,13 +61,13 @@ TABLE = {
             "Synchroniser depth = iteration count of a sync-domain carrier chain, mode table per PinMode member with comb defaults filled in, set/clr decode and output priority list, every per-pin subscript is the loop index, register order and field shapes.",
             "nothing beyond A2/N4", "6/C16"),
     "C17": ("CFG dominance / effect order, push-pop pairing, argument provenance",
-            "Builder.add validates before storing and refuses when frozen; Cluster/Index push is matched by a pop in finally; as_memory_map freezes, iterates in insertion order and passes name/addr/size/alignment computed as promised, with errors propagating.",
+            "Builder.add validates before storing and refuses when frozen; Cluster/Index push is matched by a pop in finally, by a statement that survives python -O (asserts only look: D11, fixed); as_memory_map freezes, iterates in insertion order and passes name/addr/size/alignment computed as promised, with errors propagating.",
             "allocation arithmetic inherited from C02 (N1)", "6/C17"),
     "C18": ("must-pass-through, must-call, taint, monotone flag, idiom conformance",
-            "Every namespace mutation is preceded on all paths by an availability query over the same names with a raising failure edge; names are canonicalised first; str() never reaches the deciding comparison; verdict flag is monotone; the prefix test is one of two hand-verified idioms.",
+            "Every namespace mutation is preceded on all paths by an availability query over the same names with a raising failure edge; names are canonicalised first; str() never reaches the deciding comparison; verdict flag is monotone; the prefix test is one of two hand-verified idioms; every assigned name is a candidate of the conflict search (no positional narrowing in a str()-ordered list).",
             "soundness/completeness of the prefix loop beyond idiom recognition (N1)", "6/C18"),
-    "C19": ("cross-invocation effect analysis, recursion / while-loop variant classification, set-iteration lint, who-may-call, raise-type discipline, path-typed join, optional-member guards, non-emptiness proofs for reducers / transpositions without an identity, member-direction agreement, pattern-width agreement across a clamp",
-            "No state carried from one elaboration to the next, every recursion structural or bounded, no set iteration without sorted(), metadata mutators unreachable from elaborate(), explicit raises are ValueError/TypeError (frozen exception table), path-typed values are str-mapped before join, optional bus members are accessed under their feature test, reduce/max/min/next/zip(*x) without identity only on provably non-empty collections, driven plain members are Out and read-only ones In (D8), Case patterns of the Wishbone decoder are as wide as its address port for every accepted parameter (D9: known finding).",
+    "C19": ("cross-invocation effect analysis, recursion / while-loop variant classification, set-iteration lint, who-may-call, raise-type discipline, path-typed join, optional-member guards, non-emptiness proofs for reducers / transpositions without an identity, member-direction agreement, pattern-width agreement across a clamp, uniqueness of computed submodule names",
+            "No state carried from one elaboration to the next, every recursion structural or bounded, no set iteration without sorted(), metadata mutators unreachable from elaborate(), explicit raises are ValueError/TypeError (frozen exception table), path-typed values are str-mapped before join, optional bus members are accessed under their feature test, reduce/max/min/next/zip(*x) without identity only on provably non-empty collections, driven plain members are Out and read-only ones In (D8), Case patterns of the Wishbone decoder are as wide as its address port for every accepted parameter (D9: known finding), submodule names computed from paths are guarded by a uniqueness test over all names of the module (D10, fixed), bus setters accept exactly the maps of the bus geometry.",
             "absence of every internal exception inside Amaranth calls (N4)", "6/C19"),
     "C20": ("two-point port polarity type system; driver/polarity agreement (interface and plain members); signature parameter-set agreement; member presence as a Boolean function",
             "Target ports type as In(initiator signature), every driver of a port member is an output under the port's polarity, connect() arguments have opposite polarity, signature parameters agree across __init__/__eq__/create()/interface constructor, optional members follow features.",
